@@ -83,6 +83,18 @@ def pattern_from_desc(d):
     return make_pattern(d['kind'], d['radius'], search=d['search'], radius_outer=d.get('radius_outer'))
 
 
+def render_disk(cy, cx, fy, fx, radius, antialiased=True):
+    """a disk rendered by the harness itself (independent of base.masks): sharp: r <= radius; antialiased: linear edge of
+    width 1 around the radius, i.e. clip(radius + 0.5 - r, 0, 1), the centre pixel filled (r < 0.5)"""
+    yy, xx = np.mgrid[0:fy, 0:fx]
+    r = np.hypot(yy - cy, xx - cx)
+    if not antialiased:
+        return (r <= radius).astype(np.float64)
+    v = np.clip(np.minimum(0.5 + r, radius + 0.5 - r), 0.0, 1.0)
+    v[r < 0.5] = 1.0
+    return v
+
+
 def rand_frame(rng, fy, fx, kind=None, one=1):
     """integer-valued data at scale [one] (value = ints / one); returns ints (int64)"""
     kind = kind or str(rng.choice(['noise', 'structured', 'constant', 'hot', 'negative', 'blobs']))
